@@ -166,6 +166,14 @@ def stmts(depth, width, top=True):
                     res.append(("chain", [b1, b2]))
                     for b3 in cb:
                         res.append(("chain", [b1, b2, b3, "else"]))
+            # dangling-else family: a braced then-branch whose single statement ends in an else-less 'if' reached through
+            # unbraced bodies; removing the braces re-binds the else
+            tails = [("if", ("bare", ("expr", "b = 7;")))]
+            tails += [(lp, ("bare", tails[0])) for lp in ("while", "for", "forx")]
+            tails += [("ifelse", ("bare", ("expr", "b = 8;")), ("bare", tails[0])), ("if", ("bare", tails[1]))]
+            for t in tails:
+                for e in (("bare", ("expr", "b = 9;")), ("braced", [("expr", "b = 9;")])):
+                    res.append(("ifelse", ("braced", [t]), e))
             for b in bodies[:6]:
                 res.append(("forx", b))
             for x in sub[:4]:
@@ -366,6 +374,8 @@ DECLS_CPP = [
     ("ptrmem", "struct Z { int f; int g() { return f; } };\nint pm(Z *z, Z &r)\n{\n    int Z::*p = &Z::f;\n    int (Z::*q)() = &Z::g;\n    return z->*p + r.*p + (z->*q)() + (r.*q)();\n}\n"),
     ("ctorinit", "struct B { int a; int b; B(int x, int y) : a(x), b(y) {} B() : B(0, 0) {} };\nB b1(1, 2);\nB b2{ 1, 2 };\nB b3 = B(3, 4);\n"),
     ("noexcept", "struct M { M() noexcept = default; M(const M &) = delete; void f() const noexcept override; virtual void g() = 0; };\n".replace(" override", "")),
+    ("globalscope", "namespace N { struct T { int v; }; template<typename X> struct W { X x; }; int gf(int); }\nint gs(void *p)\n{\n    ::N::T *t = static_cast<::N::T *>(p);\n"
+                    "    N::W<::N::T> w;\n    N::W<   ::N::T> w2;\n    return ::N::gf(t->v) + (int)sizeof(w) + (int)sizeof(w2) + ::N::gf( ::N::gf(1));\n}\n"),
     ("functor", "struct D { D &operator()(const char *s, int v) { return *this; } D &operator()() { return *this; } D &add() { return *this; } };\n"
                 "void fc(D *desc)\n{\n    desc->add()(\"a\", 1)(\"b\", 2)();\n    desc->add() (\"c\", 3) ();\n}\n"),
     ("convop", "struct CV { int x; operator bool() const { return x != 0; } operator const char *() const { return 0; } explicit operator int() const { return x; } };\n"),
@@ -436,6 +446,8 @@ PP = [
     ("define-stmt", "#define CHECK(c) if (!(c)) return -1\n#define LOOP for (;;)\nint f(int a)\n{\n    CHECK(a);\n    LOOP { break; }\n    return 0;\n}\n"),
     ("define-in-case", "int g(void);\nint dc(int a)\n{\n    switch (a) {\n    case 1: {\n#define INNER(x) do { if (x) { g(); } } while (0)\n        INNER(a);\n        break;\n    }\n"
                        "    default:\n        break;\n    }\n    return a;\n}\n"),
+    ("define-braces", "int g(void);\n#define CHK(a) if (a) { g(); } else { g(); } g()\n#define BLK(a) { g(); } g()\n#define FN(n) int n(void) { return 1; } int n##_v\nFN(zz);\n"
+                      "int db(int a)\n{\n    CHK(a);\n    BLK(a);\n    return zz_v;\n}\n"),
     ("dir-comment", "#define V 1 /* value */\n#define W 2 // other\n#if V /* c */\nint k;\n#endif // V\n"),
     ("error-warning", "#define OK 1\n#if !OK\n#error \"not ok: a  b\"\n#endif\nint e;\n"),
     ("define-cont-cmt", "#define M(a) \\\n    /* first */ \\\n    ((a) + 1)\nint u = M(1);\n"),
